@@ -35,7 +35,7 @@ def nontrivial(evs):
     return wrote and (junk or failed or edited)
 
 
-def select(behs, rnd, quotas=(1500, 60, 40, 40)):
+def select(behs, rnd, quotas=(2500, 60, 40, 40)):
     """stratified choice among the generated behaviours: A = an out-of-band edit, or a new complete desired state, on
     a table that an earlier Apply had converged (the driver appends refresh-interval + Apply); B = an Apply with an edit / failure inside it after
     an earlier Apply; C = anything else that goes on after a first Apply; D = first Apply from a start kernel"""
@@ -59,8 +59,13 @@ def select(behs, rnd, quotas=(1500, 60, 40, 40)):
     return out
 
 
+_MAP_ACTIONS = ("MSetMap", "MRemoveMap", "MEditMap")
 DESIGN = [{"module": "MC_RTable", "cfg": "MC_quick.cfg", "thorough_cfg": "MC_thorough.cfg", "workers": 4,
-           "heap": "4g", "timeout": 400, "thorough_timeout": 1700}]
+           "heap": "4g", "timeout": 400, "thorough_timeout": 1700,
+           # the verdict-map actions are explored in the separate slim configuration below
+           "allow_zero": _MAP_ACTIONS},
+          {"module": "MC_RTable", "cfg": "MC_maps.cfg", "workers": 4, "heap": "4g", "timeout": 400,
+           "thorough_timeout": 1700}]
 
 P = {
     "specdir": "reconcile_table",
